@@ -9,6 +9,7 @@ mod codec;
 mod replhist;
 mod eqhash;
 mod attrprops;
+mod ropeprop;
 mod treeprops;
 
 use runner::*;
@@ -70,6 +71,13 @@ fn main() {
     let limit = if thorough { 1 << 20 } else { 1 << 14 };
     let (n, fails) = codec::exhaustive_deltas(limit, &mut d);
     r["extra"] = json!({ "exhaustive_single_field_deltas": n, "exhaustive_limit": limit });
+    for f in fails { r["failures"].as_array_mut().unwrap().push(json!({ "kind": if f.clause.ends_with("corr") { "corr" } else { "oracle" }, "clause": f.clause, "detail": f.detail, "known": null, "case": {"requests": []} })); }
+    r
+  } else if id == "C16" {
+    let mut r = simple::run_simple("C16", &ropeprop::gen, &ropeprop::corpus(), &cfg);
+    let mut d = core::Driver::spawn(&cfg.driver);
+    let (n, fails) = if thorough { ropeprop::exhaustive(3, 5, &mut d) } else { ropeprop::exhaustive(2, 5, &mut d) };
+    r["extra"] = json!({ "exhaustive_programs": n });
     for f in fails { r["failures"].as_array_mut().unwrap().push(json!({ "kind": if f.clause.ends_with("corr") { "corr" } else { "oracle" }, "clause": f.clause, "detail": f.detail, "known": null, "case": {"requests": []} })); }
     r
   } else if id == "C05" {
